@@ -40,7 +40,6 @@ const (
 	ns        = "ns"
 	shard     = int64(1)
 	retention = 24 * 365 * 100 * time.Hour
-	maxWrites = 6
 )
 
 var (
@@ -123,9 +122,12 @@ func idx(name, key string) []*proto.SecondaryIndex {
 	return []*proto.SecondaryIndex{{IndexName: name, SecondaryKey: key}}
 }
 
-// buildReference logs maxWrites requests the way a leader does (session create / close requests as
-// session_manager.go and session.go build them) and folds them over a fresh database.
-func buildReference() *reference {
+// entryBuilder returns the next request of a scripted log; db is the reference instance that has
+// applied everything before it (session close requests list it the way session.delete does).
+type entryBuilder func(db kv.DB) (name string, req *proto.WriteRequest)
+
+// foldLog logs the requests the way a leader does and folds them over a fresh database.
+func foldLog(builders []entryBuilder) *reference {
 	f := oxh.NewMemFactory()
 	defer f.Close()
 	db, err := kv.NewDB(ns, shard, f, retention, clock)
@@ -135,57 +137,10 @@ func buildReference() *reference {
 	defer db.Close()
 	r := &reference{}
 	r.dumps = append(r.dumps, dump(db))
-	big := func() []*proto.PutRequest {
-		var ps []*proto.PutRequest
-		for i := 0; i < 20; i++ {
-			ps = append(ps, &proto.PutRequest{Key: fmt.Sprintf("k%02d", i), Value: []byte(strings.Repeat(fmt.Sprintf("v%02d.", i), 50))})
-		}
-		return ps
-	}
-	for w := int64(0); w < maxWrites; w++ {
-		var req *proto.WriteRequest
-		var name string
-		switch w {
-		case 0:
-			name = "session-create"
-			req = &proto.WriteRequest{Puts: []*proto.PutRequest{{Key: server.SessionKey(server.SessionId(w)), Value: append([]byte(nil), sessionMeta...)}}}
-		case 1:
-			name = "put-ephemeral(a)+put(b,idx)"
-			req = &proto.WriteRequest{Puts: []*proto.PutRequest{
-				{Key: "a", Value: []byte("a1"), SessionId: oxh.I64(0), ClientIdentity: oxh.Str("cid")},
-				{Key: "b", Value: []byte("b1"), SecondaryIndexes: idx("i1", "x")}}}
-		case 2:
-			name = "seq-put(s,+1)+delete(b)"
-			req = &proto.WriteRequest{Puts: []*proto.PutRequest{{Key: "s", Value: []byte("s2"), PartitionKey: oxh.Str("p"), SequenceKeyDelta: []uint64{1}}},
-				Deletes: []*proto.DeleteRequest{{Key: "b"}}}
-		case 3:
-			name = "put(k00..k19)+put(c,idx)+deleteRange[k05,k10)"
-			req = &proto.WriteRequest{Puts: append(big(), &proto.PutRequest{Key: "c", Value: []byte("c3"), SecondaryIndexes: idx("i1", "y")}),
-				DeleteRanges: []*proto.DeleteRangeRequest{{StartInclusive: "k05", EndExclusive: "k10"}}}
-		case 4:
-			name = "session-close"
-			sk := server.SessionKey(server.SessionId(0))
-			it, err := db.List(&proto.ListRequest{StartInclusive: sk + "/", EndExclusive: sk + "//"})
-			if err != nil {
-				panic(err)
-			}
-			var dels []*proto.DeleteRequest
-			for ; it.Valid(); it.Next() {
-				if un, err := url.PathUnescape(it.Key()[len(sk)+1:]); err == nil && un != "" {
-					dels = append(dels, &proto.DeleteRequest{Key: un})
-				}
-			}
-			_ = it.Close()
-			dels = append(dels, &proto.DeleteRequest{Key: sk})
-			req = &proto.WriteRequest{Deletes: dels, DeleteRanges: []*proto.DeleteRangeRequest{{StartInclusive: sk + "/", EndExclusive: sk + "//"}}}
-		default:
-			name = "put(a)+put(c,expected=current)"
-			gr, _ := db.Get(&proto.GetRequest{Key: "c"})
-			req = &proto.WriteRequest{Puts: []*proto.PutRequest{{Key: "a", Value: []byte(fmt.Sprintf("a%d", w))},
-				{Key: "c", Value: []byte("c5"), ExpectedVersionId: oxh.I64(gr.GetVersion().GetVersionId())}}}
-		}
+	for w, b := range builders {
+		name, req := b(db)
 		req.Shard = oxh.I64(shard)
-		e := logEntry{off: w, ts: tsOf(w), raw: encode(req), name: name}
+		e := logEntry{off: int64(w), ts: tsOf(int64(w)), raw: encode(req), name: name}
 		resp, err := applyEntry(db, e)
 		if err != nil {
 			panic(fmt.Sprintf("reference cannot apply %s: %v", name, err))
@@ -195,6 +150,61 @@ func buildReference() *reference {
 		r.dumps = append(r.dumps, dump(db))
 	}
 	return r
+}
+
+// sessionClose builds the request session.delete sends when session 0 expires / is closed.
+func sessionClose(db kv.DB) (string, *proto.WriteRequest) {
+	sk := server.SessionKey(server.SessionId(0))
+	it, err := db.List(&proto.ListRequest{StartInclusive: sk + "/", EndExclusive: sk + "//"})
+	if err != nil {
+		panic(err)
+	}
+	var dels []*proto.DeleteRequest
+	for ; it.Valid(); it.Next() {
+		if un, err := url.PathUnescape(it.Key()[len(sk)+1:]); err == nil && un != "" {
+			dels = append(dels, &proto.DeleteRequest{Key: un})
+		}
+	}
+	_ = it.Close()
+	dels = append(dels, &proto.DeleteRequest{Key: sk})
+	return "session-close", &proto.WriteRequest{Deletes: dels, DeleteRanges: []*proto.DeleteRangeRequest{{StartInclusive: sk + "/", EndExclusive: sk + "//"}}}
+}
+
+func sessionCreate(kv.DB) (string, *proto.WriteRequest) {
+	return "session-create", &proto.WriteRequest{Puts: []*proto.PutRequest{{Key: server.SessionKey(server.SessionId(0)), Value: append([]byte(nil), sessionMeta...)}}}
+}
+
+// buildReference: the small log (maxWrites one-batch entries) of the original three suites.
+func buildReference() *reference {
+	big := func() []*proto.PutRequest {
+		var ps []*proto.PutRequest
+		for i := 0; i < 20; i++ {
+			ps = append(ps, &proto.PutRequest{Key: fmt.Sprintf("k%02d", i), Value: []byte(strings.Repeat(fmt.Sprintf("v%02d.", i), 50))})
+		}
+		return ps
+	}
+	return foldLog([]entryBuilder{
+		sessionCreate,
+		func(kv.DB) (string, *proto.WriteRequest) {
+			return "put-ephemeral(a)+put(b,idx)", &proto.WriteRequest{Puts: []*proto.PutRequest{
+				{Key: "a", Value: []byte("a1"), SessionId: oxh.I64(0), ClientIdentity: oxh.Str("cid")},
+				{Key: "b", Value: []byte("b1"), SecondaryIndexes: idx("i1", "x")}}}
+		},
+		func(kv.DB) (string, *proto.WriteRequest) {
+			return "seq-put(s,+1)+delete(b)", &proto.WriteRequest{Puts: []*proto.PutRequest{{Key: "s", Value: []byte("s2"), PartitionKey: oxh.Str("p"), SequenceKeyDelta: []uint64{1}}},
+				Deletes: []*proto.DeleteRequest{{Key: "b"}}}
+		},
+		func(kv.DB) (string, *proto.WriteRequest) {
+			return "put(k00..k19)+put(c,idx)+deleteRange[k05,k10)", &proto.WriteRequest{Puts: append(big(), &proto.PutRequest{Key: "c", Value: []byte("c3"), SecondaryIndexes: idx("i1", "y")}),
+				DeleteRanges: []*proto.DeleteRangeRequest{{StartInclusive: "k05", EndExclusive: "k10"}}}
+		},
+		sessionClose,
+		func(db kv.DB) (string, *proto.WriteRequest) {
+			gr, _ := db.Get(&proto.GetRequest{Key: "c"})
+			return "put(a)+put(c,expected=current)", &proto.WriteRequest{Puts: []*proto.PutRequest{{Key: "a", Value: []byte("a5")},
+				{Key: "c", Value: []byte("c5"), ExpectedVersionId: oxh.I64(gr.GetVersion().GetVersionId())}}}
+		},
+	})
 }
 
 // ---------------------------------------------------------------------------------------
@@ -216,18 +226,42 @@ type outcome struct {
 	kinds       map[string]int64
 	flushLost   bool
 	closeLost   bool
+	commits            int64 // KV batch commits of the node under test up to the crash / end of the history
+	maxCommitsPerEntry int64 // most batch commits seen during the application of one log entry
+	injected           bool  // the "@k" / "^k" action ran
 }
 
 func countWrites(h string) int { return strings.Count(h, "W") }
 
+// A history may end in "@k" (Flush of the KV right before the k-th batch commit of the node, then
+// the run goes on; the crash index j is enumerated as for every history) or "^k" (snapshot route,
+// see runSnap).
+func splitHist(h string) (events string, kind byte, k int64) {
+	if i := strings.IndexAny(h, "@^"); i >= 0 {
+		_, _ = fmt.Sscanf(h[i+1:], "%d", &k)
+		return h[:i], h[i], k
+	}
+	return h, 0, 0
+}
+
 func runOne(ref *reference, hist string, crashAt int64, trace bool) (out outcome) {
+	fullHist := hist
+	hist, injKind, injK := splitHist(fullHist)
+	if injKind == '^' {
+		return runSnap(ref, fullHist, crashAt, trace)
+	}
 	cfs := newCountFS(crashAt, trace)
 	dir := filepath.Join(scratch, fmt.Sprintf("d%d", dirSeq.Add(1)))
 	fsReg.Store(dir, vfs.FS(cfs))
 	makeDurableDir(cfs.mem, filepath.Join(dir, ns, fmt.Sprintf("shard-%d", shard)))
 	defer fsReg.Delete(dir)
 	defer os.RemoveAll(dir)
-	obs := &observer{}
+	inj := &injector{}
+	if injKind == '@' {
+		inj.k = injK
+		inj.act = func(inner kv.KV) error { return inner.Flush() }
+	}
+	obs := &observer{inj: inj}
 	var factories []kv.Factory
 	defer func() {
 		for _, f := range factories {
@@ -260,6 +294,7 @@ func runOne(ref *reference, hist string, crashAt int64, trace bool) (out outcome
 		return fail("open-failed", "initial open: %v", err)
 	}
 	out.openOps = cfs.n.Load()
+	inj.armed.Store(true)
 	w := 0             // writes started so far
 	term := int64(0)   // last term whose UpdateTerm was started
 	var started []int64 // all terms whose UpdateTerm was started
@@ -270,10 +305,14 @@ func runOne(ref *reference, hist string, crashAt int64, trace bool) (out outcome
 		case 'W':
 			e := ref.log[w]
 			w++
+			before := inj.seen.Load()
 			resp, err := applyEntry(db, e)
 			if err != nil {
 				_ = db.Close()
 				return fail("step-error:ProcessWrite", "step %d: entry %d (%s): %v", si, e.off, e.name, err)
+			}
+			if n := inj.seen.Load() - before; n > out.maxCommitsPerEntry {
+				out.maxCommitsPerEntry = n
 			}
 			if !resp.EqualVT(ref.resps[e.off]) {
 				_ = db.Close()
@@ -348,11 +387,17 @@ func runOne(ref *reference, hist string, crashAt int64, trace bool) (out outcome
 		cfs.curStep.Store(int64(len(hist)))
 		cfs.freeze("<end of history>")
 	}
+	inj.armed.Store(false)
+	out.commits = inj.seen.Load()
+	out.injected = inj.fired.Load()
 	out.fsOps = cfs.n.Load()
 	out.frozenStep = cfs.frozenStep.Load()
 	out.frozenOp, _ = cfs.frozenOp.Load().(string)
 	if alive {
 		_ = db.Close() // lets background work finish; nothing it writes is durable any more
+	}
+	if err := inj.failure(); err != nil {
+		return fail("step-error:InjectedFlush", "Flush before batch commit %d: %v", injK, err)
 	}
 	if trace {
 		out.kinds = cfs.kinds
@@ -371,6 +416,9 @@ func runOne(ref *reference, hist string, crashAt int64, trace bool) (out outcome
 	}
 	out.c = c
 	where := fmt.Sprintf("crash at fs-op %d (before %q, during step %d), %d writes started", crashAt, out.frozenOp, out.frozenStep, w)
+	if injKind == '@' && out.injected {
+		where += fmt.Sprintf(", KV flushed right before batch commit %d of the node", injK)
+	}
 	if c > int64(w-1) || c < -1 {
 		return fail("commit-offset-ahead-of-applied", "%s: stored commit offset %d", where, c)
 	}
@@ -460,7 +508,24 @@ type job struct {
 
 type runner func(ref *reference, hist string, crashAt int64, trace bool) outcome
 
-var suites = map[string]runner{"db": runOne, "leader": runLeader, "follower": runFollower}
+// "db", "leader", "follower": the small log (ref); "dbbig": kv.DB alone over the big log (bigRef, see
+// big.go). A history of "db"/"dbbig" that ends in "^k" takes the snapshot route (runSnap).
+var bigRef *reference
+
+var suites = map[string]runner{"db": runOne, "leader": runLeader, "follower": runFollower,
+	"dbbig": func(_ *reference, hist string, crashAt int64, trace bool) outcome { return runOne(bigRef, hist, crashAt, trace) }}
+
+// bigHistories: every entry of the big log, with one event of {T,F,S,C} at every position.
+func bigHistories(tier string) (plain []string) {
+	base := strings.Repeat("W", len(bigRef.log))
+	plain = append([]string{base}, insertions(base, "TFSC")...)
+	if tier == "thorough" {
+		for _, h := range insertions(base, "TFSC") {
+			plain = append(plain, insertions(h, "TC")...)
+		}
+	}
+	return plain
+}
 
 func followerHistories(tier string) []string {
 	if tier != "thorough" {
@@ -492,6 +557,15 @@ func main() {
 	}
 	run := ev.NewRun("C07", "fault_enumeration")
 	ref := buildReference()
+	bigRef = buildBigReference()
+	fatal, refNotes := checkBigReference(bigRef)
+	if fatal != nil {
+		fmt.Println("C07:", fatal)
+		os.Exit(2)
+	}
+	for _, n := range refNotes {
+		run.Note(n)
+	}
 	if *replay != "" {
 		code := doReplay(*replay, ref)
 		os.RemoveAll(scratch)
@@ -508,6 +582,39 @@ func main() {
 	nLeader := len(hs) - nDB
 	for _, h := range followerHistories(run.Tier) {
 		hs = append(hs, job{"follower", h, -1})
+	}
+	nFollower := len(hs) - nDB - nLeader
+	// multi-part entries: the big log, a flush ("@k") before every batch commit the implementation
+	// performs, every crash index of those runs; the snapshot route ("^k") at every batch commit
+	smallBase := strings.Repeat("W", len(ref.log))
+	var snapJobs []job
+	nBigPlain, nInjSmall, nInjBig := 0, 0, 0
+	{
+		plain := bigHistories(run.Tier)
+		injBases := []string{plain[0]}
+		if run.Tier == "thorough" {
+			injBases = plain[:1+4*(len(bigRef.log)+1)]
+		}
+		inj := withInjections(runOne, bigRef, injBases, '@')
+		nBigPlain, nInjBig = len(plain), len(inj)
+		for _, h := range append(plain, inj...) {
+			hs = append(hs, job{"dbbig", h, -1})
+		}
+		injSmallBases := []string{smallBase}
+		if run.Tier == "thorough" {
+			injSmallBases = append(injSmallBases, insertions(smallBase, "TFSC")...)
+		}
+		injSmall := withInjections(runOne, ref, injSmallBases, '@')
+		nInjSmall = len(injSmall)
+		for _, h := range injSmall {
+			hs = append(hs, job{"db", h, -1})
+		}
+		for _, h := range withInjections(runOne, bigRef, plain[:1+4*(len(bigRef.log)+1)], '^') {
+			snapJobs = append(snapJobs, job{"dbbig", h, 0})
+		}
+		for _, h := range withInjections(runOne, ref, append([]string{smallBase}, insertions(smallBase, "TFSC")...), '^') {
+			snapJobs = append(snapJobs, job{"db", h, 0})
+		}
 	}
 	budget := 70 * time.Second
 	if run.Tier == "thorough" {
@@ -558,7 +665,7 @@ func main() {
 	var wg sync.WaitGroup
 	var cut atomic.Bool
 	var mu sync.Mutex
-	var evals, beyond, insideOpen, flushLost, offsetsSeen int64
+	var evals, beyond, insideOpen, flushLost, offsetsSeen, snapEvals, injEvals, injFired, maxPerEntry, bigEvals int64
 	var nondet []string
 	cDist := map[int64]int64{}
 	stepDist := map[string]int64{}
@@ -576,11 +683,28 @@ func main() {
 					continue
 				}
 				o := suites[jb.suite](ref, jb.hist, jb.j, false)
+				events, injKind, _ := splitHist(jb.hist)
 				mu.Lock()
 				evals++
-				perSuite[jb.suite]++
+				switch {
+				case injKind == '^':
+					snapEvals++
+				case jb.suite == "dbbig":
+					bigEvals++
+				default:
+					perSuite[jb.suite]++
+				}
+				if injKind == '@' {
+					injEvals++
+				}
+				if injKind != 0 && o.injected {
+					injFired++
+				}
+				if o.maxCommitsPerEntry > maxPerEntry {
+					maxPerEntry = o.maxCommitsPerEntry
+				}
 				offsetsSeen += int64(o.offsets)
-				if o.frozenStep == int64(len(jb.hist)) {
+				if o.frozenStep == int64(len(events)) && injKind != '^' {
 					beyond++ // this run issued fewer than j operations: crash after the history
 				}
 				if o.frozenStep == -1 {
@@ -592,8 +716,8 @@ func main() {
 				if o.v == nil {
 					cDist[o.c]++
 					st := "end"
-					if o.frozenStep >= 0 && o.frozenStep < int64(len(jb.hist)) {
-						st = string(jb.hist[o.frozenStep])
+					if o.frozenStep >= 0 && o.frozenStep < int64(len(events)) {
+						st = string(events[o.frozenStep])
 					} else if o.frozenStep == -1 {
 						st = "open"
 					}
@@ -639,6 +763,9 @@ func main() {
 			jobs <- job{h.suite, h.hist, j}
 		}
 	}
+	for _, jb := range snapJobs {
+		jobs <- jb
+	}
 	close(jobs)
 	wg.Wait()
 	if cut.Load() {
@@ -647,7 +774,16 @@ func main() {
 	run.Add("evaluations", evals)
 	run.Add("histories_db_alone", int64(nDB))
 	run.Add("histories_real_leader_rf1", int64(nLeader))
-	run.Add("histories_real_follower", int64(len(hs)-nDB-nLeader))
+	run.Add("histories_real_follower", int64(nFollower))
+	run.Add("histories_big_log_db_alone", int64(nBigPlain))
+	run.Add("histories_big_log_flush_before_batch_commit_k", int64(nInjBig))
+	run.Add("histories_small_log_flush_before_batch_commit_k", int64(nInjSmall))
+	run.Add("histories_snapshot_before_batch_commit_k", int64(len(snapJobs)))
+	run.Add("evaluations_big_log_db_alone", bigEvals)
+	run.Add("evaluations_flush_before_batch_commit_k", injEvals)
+	run.Add("evaluations_snapshot_route", snapEvals)
+	run.Add("evaluations_injection_ran_before_the_crash_point", injFired)
+	run.Add("max_batch_commits_during_one_log_entry", maxPerEntry)
 	run.Add("evaluations_real_follower", perSuite["follower"])
 	run.Add("evaluations_db_alone", perSuite["db"])
 	run.Add("evaluations_real_leader_rf1", perSuite["leader"])
@@ -676,11 +812,12 @@ func main() {
 	} else {
 		run.Coverage["histories_rule"] = "(+ a few longer hand-written ones) db alone: all sequences of length 3..5 over {W,T,F,S,C} with >=3 writes; real leader: length 3..4 over {W,E,S,C}; real follower: length 3..4 over {W,P,T,C}"
 	}
+	run.Coverage["histories_rule_big_log"] = "W x10 (all entries of the big log) alone and with one event of {T,F,S,C} inserted at every position (thorough: + a second event of {T,C} at every position), every crash index; W x10@k for every batch commit k (thorough: also the one-event histories), every crash index; W x6@k on the small log; snapshot route ^k for every batch commit k of W x10 / W x6 and of all their one-event histories"
 	for _, s := range nondet {
 		run.Note("nondeterministic (not reported as violation): " + s)
 	}
 	run.Sample(map[string]any{"suite": "db", "history": hs[nDB/2].hist, "fs_ops": info[nDB/2].n, "meaning": "W=ProcessWrite of the next log entry, T=UpdateTerm(term+1), F=kv.Flush, S=db.Snapshot, C=graceful Close+reopen"})
-	run.Sample(map[string]any{"suite": "follower", "history": hs[len(hs)-1].hist, "fs_ops": info[len(hs)-1].n, "meaning": "W=Append(entry k, commit=k) and wait for apply, P=Append(entry k, commit=k-1), T=NewTerm + new stream, C=Close + new controller + NewTerm + stream; after the crash: new controller, NewTerm, stream, one more append committing everything"})
+	run.Sample(map[string]any{"suite": "follower", "history": hs[nDB+nLeader+nFollower-1].hist, "fs_ops": info[nDB+nLeader+nFollower-1].n, "meaning": "W=Append(entry k, commit=k) and wait for apply, P=Append(entry k, commit=k-1), T=NewTerm + new stream, C=Close + new controller + NewTerm + stream; after the crash: new controller, NewTerm, stream, one more append committing everything"})
 	run.Sample(map[string]any{"suite": "leader", "history": hs[nDB+nLeader-1].hist, "fs_ops": info[nDB+nLeader-1].n, "meaning": "W=WriteBlock, E=NewTerm+BecomeLeader, S=db.Snapshot, C=Close+new controller+election; after the crash: new controller, election, applyAllEntriesIntoDB"})
 	run.Sample(map[string]any{"log": func() []string {
 		var o []string
@@ -689,14 +826,25 @@ func main() {
 		}
 		return o
 	}()})
+	run.Sample(map[string]any{"suite": "dbbig", "history": hs[len(hs)-nInjSmall-1].hist, "fs_ops": info[len(hs)-nInjSmall-1].n,
+		"meaning": "events as in suite db; @k = kv.Flush right before the k-th batch commit the node performs (k = 1..number of commits measured on the implementation), ^k = snapshot right before the k-th batch commit, installed on a fresh node through the snapshot loader",
+		"big_log": func() []string {
+			var o []string
+			for _, e := range bigRef.log {
+				o = append(o, e.name)
+			}
+			return o
+		}()})
 	run.Assume = []string{
 		"crash model: Pebble strict MemFS; file data and directory entries not fsynced before the crash point are lost, everything fsynced survives; no torn writes inside one fsynced file (Pebble's own checksums cover that)",
 		"the shard WAL is durable and ahead of the database (its own crash behaviour is C09/C10); the harness plays its role with the entry list",
 		"the number of filesystem operations of a history varies slightly between runs (Pebble background goroutines); each run counts its own operations, a crash index beyond the count of that run is a crash after the history",
 		"single-threaded application only; concurrent in-flight writes and overlapping follower apply rounds are explored by the scheduler-based harness",
 		"db.Snapshot(): the checkpoint is written to the crash filesystem, the chunk listing reads the real (empty) directory",
+		"@k / ^k: the flush (snapshot) is issued by the goroutine that is about to commit batch k, right before the engine sees the batch: the image contains exactly batches 1..k-1. This stands for any concurrent Flush (NewTerm, snapshot for a follower, full memtable) that falls between two commits; which interleavings of the real goroutines produce it is stage 2's business (C07S)",
+		"snapshot route: node and installed copy on real directories under /dev/shm (the snapshot loader writes with package os); no crash inside the installation",
 	}
-	code := run.Finish("for every history and every index j of a mutating filesystem operation (create, write, sync, rename, remove, link, mkdir, lock, directory sync) issued by Pebble during the history (incl. the initial open), plus the crash after the history: freeze durability right before operation j, finish the step, abandon the DB, reset the filesystem to its synced state, reopen, check commit offset / fold equality / term / replay convergence / commit-offset batch sequence")
+	code := run.Finish("for every history and every index j of a mutating filesystem operation (create, write, sync, rename, remove, link, mkdir, lock, directory sync) issued by Pebble during the history (incl. the initial open), plus the crash after the history: freeze durability right before operation j, finish the step, abandon the DB, reset the filesystem to its synced state, reopen, check commit offset / fold equality / term / replay convergence / commit-offset batch sequence; for the log of large and multi-part entries (big log) and the small log additionally: for every k in 1..number of KV batch commits of the history, the same enumeration with a Flush right before batch commit k, and a snapshot right before batch commit k installed on a fresh node (same oracle)")
 	os.RemoveAll(scratch)
 	os.Exit(code)
 }
